@@ -75,6 +75,11 @@ Theorem C20_refused_at_begin :
     step s (LBegin t hid p) = Some s' -> s' = s.
 Proof. exact refused_at_begin_pf. Qed.
 
+(* "carrying a different cluster id" includes carrying none: a request with no header message has id 0 *)
+Theorem C20_headerless_request_refused :
+  forall s t p s', scid s <> 0 -> step s (LBegin t (hid_of None) p) = Some s' -> s' = s.
+Proof. exact headerless_refused_pf. Qed.
+
 (* ---- all members agree on a single cluster id that never changes afterwards ---- *)
 Theorem C20_cluster_id_agreed :
   forall c ls m v, mids (exec step (init c) ls) m = Some v -> cid (e (exec step (init c) ls)) = Some v.
@@ -134,6 +139,7 @@ Print Assumptions C20_stored_all_from_winner.
 Print Assumptions C20_running_implies_bootstrapped.
 Print Assumptions C20_loser_changes_nothing.
 Print Assumptions C20_refused_at_begin.
+Print Assumptions C20_headerless_request_refused.
 Print Assumptions C20_cluster_id_agreed.
 Print Assumptions C20_members_agree.
 Print Assumptions C20_cluster_id_stable.
